@@ -149,6 +149,50 @@ theorem cloneGuard_same (w : World) (h : Nat) : SameData w (w.cloneGuard h).1 :=
     · exact fetchCore_same _ _ _ _ _
   · exact SameData.refl w
 
+theorem releaseAll_same (w : World) (hs : List Nat) : SameData w (releaseAll w hs) := by
+  induction hs generalizing w with
+  | nil => exact SameData.refl w
+  | cons h t ih => exact (release_same w h).trans (ih _)
+
+theorem take_same (w : World) (tys : List Nat) (ri wi : Nat) (prior : List Nat) (t : Take) :
+    SameData w (t.run w tys ri wi prior).1 := by
+  cases t with
+  | fetch ty excl orPanic => exact fetchCore_same _ _ _ _ _
+  | byId a k excl =>
+    cases excl
+    · simp only [Take.run, Bool.false_eq_true, if_false, tryFetchById]
+      split
+      · exact SameData.refl w
+      · exact fetchCore_same _ _ _ _ _
+    · simp only [Take.run, if_true, tryFetchMutById]
+      split
+      · exact SameData.refl w
+      · exact fetchCore_same _ _ _ _ _
+  | data items => exact sysData_same w items
+  | iter excl => exact metaNext_same w _ _ _
+  | cloneLocal i =>
+    simp only [Take.run]
+    split
+    · exact cloneGuard_same w _
+    · exact SameData.refl w
+  | cloneOuter h => exact cloneGuard_same w h
+
+theorem scopeBody_same (tys : List Nat) (takes : List Take) (w : World) (ri wi : Nat) (prior : List Nat) :
+    SameData w (scopeBody tys takes w ri wi prior).1 := by
+  induction takes generalizing w ri wi prior with
+  | nil => exact SameData.refl w
+  | cons t rest ih =>
+    have ht := take_same w tys ri wi prior t
+    unfold scopeBody
+    generalize t.run w tys ri wi prior = r at ht
+    obtain ⟨w1, o⟩ := r
+    cases o <;> first | exact ht | exact ht.trans (ih _ _ _ _)
+
+/-- a closure that only takes and drops guards changes no data -/
+theorem scope_same (w : World) (tys : List Nat) (takes : List Take) (e : Bool) :
+    SameData w (w.scope tys takes e).1 :=
+  (scopeBody_same tys takes w 0 0 []).trans (releaseAll_same _ _)
+
 /-! ## the table as a multiset of values -/
 
 theorem eraseCell_not_mem {k : ResId} {l : List (ResId × Cell)} (h : k ∉ l.map (·.1)) : eraseCell k l = l := by
@@ -577,6 +621,10 @@ theorem step_same_of_not_mut (w : World) (op : Op) (h : op.isMut = false) : Same
   | metaNext tys idx x => exact metaNext_same w tys idx x
   | clone h' => exact cloneGuard_same w h'
   | drop h' => exact release_same w h'
+  | scope tys takes e => exact scope_same w tys takes e
+  | insertFused _ _ _ => cases h
+  | entryFault _ _ _ => cases h
+  | execFault _ _ => cases h
 
 /-- the three data invariants of C09, together -/
 structure MapOk (w : World) : Prop where
@@ -586,6 +634,29 @@ structure MapOk (w : World) : Prop where
 
 theorem SameData.mapOk {w w' : World} (h : SameData w w') (hm : MapOk w) : MapOk w' :=
   ⟨h.typed hm.typed, h.keysNodup hm.keys, h.linear hm.linear⟩
+
+/-- an `entry` call that meets a fault keeps the three invariants: nothing is stored twice, nothing
+is lost, a value handed in and not stored is dropped -/
+theorem entryFault_mapOk {w : World} (hm : MapOk w) (ty t : Nat) (f : EntryFault) : MapOk (w.entryFault ty t f).1 := by
+  have hs : ∀ bv, MapOk (w.entryScoped ty t bv).1 := fun bv =>
+    ⟨entryScoped_typed hm.typed _ _ _, entryScoped_keys hm.keys _ _ _, entryScoped_linear hm.linear _ _ _⟩
+  cases f with
+  | guardHeld bv => rw [entryFault_guardHeld_fst]; exact hs bv
+  | valueDrop =>
+    unfold entryFault
+    cases hk : w.get ⟨ty, 0⟩ with
+    | some c =>
+      refine ⟨hm.typed, hm.keys, ?_⟩
+      intro x
+      have := hm.linear x
+      simp only [World.tokens, List.count_append] at this ⊢
+      omega
+    | none => exact hs true
+  | closure =>
+    unfold entryFault
+    cases hk : w.get ⟨ty, 0⟩ with
+    | some c => exact hs false
+    | none => exact hm
 
 theorem step_mapOk {w : World} (hm : MapOk w) (op : Op) : MapOk (w.step op).1 := by
   cases hmut : op.isMut with
@@ -614,6 +685,16 @@ theorem step_mapOk {w : World} (hm : MapOk w) (op : Op) : MapOk (w.step op).1 :=
     | metaNext _ _ _ => cases hmut
     | clone _ => cases hmut
     | drop _ => cases hmut
+    | scope _ _ _ => cases hmut
+    | insertFused a k tok =>
+      show MapOk (w.insertFused a k tok).1
+      rw [insertFused_fst]
+      exact ⟨insertById_typed hm.typed _ _ _, insertById_keys hm.keys _ _ _, insertById_linear hm.linear _ _ _⟩
+    | entryFault ty tok f => exact entryFault_mapOk hm ty tok f
+    | execFault items toks =>
+      show MapOk (w.execFault items toks).1
+      rw [execFault_fst]
+      exact (exec_same w items toks).mapOk ⟨setup_typed hm.typed _ _, setup_keys hm.keys _ _, setup_linear hm.linear _ _⟩
 
 theorem run_mapOk {w : World} (hm : MapOk w) (ops : List Op) : MapOk (w.run ops) := by
   induction ops generalizing w with
